@@ -44,6 +44,9 @@ func unitDispatch(name string, args []string, out *bufio.Writer) bool {
 	case "unit-mpsc":
 		unitMpsc(args, out)
 		return true
+	case "conc-window":
+		concWindow(args, out)
+		return true
 	case "conc-refresh":
 		concRefresh(args, out)
 		return true
